@@ -370,7 +370,14 @@ class Runner:
             except Exception as e:  # noqa: BLE001
                 ev["outcome"] = type(e).__name__
                 ev["msg"] = str(e)[:200]
-            self.post(ev)
+            try:
+                self.post(ev)
+            except Exception as e:  # noqa: BLE001
+                # the model can no longer be observed (state_dict(), a module attribute, a registry ... raises): an
+                # observation in its own right, admitted by no action of the trace specification
+                self.events.append({"act": "Crash", "args": a, "outcome": "observe:" + type(e).__name__, "msg": str(e)[:300], "after": ev.get("act"),
+                                    "mods": [], "globals": {"pre_hooks": 0, "post_hooks": 0, "modes": 0}, "state_digest": ""})
+                break
             if ev["outcome"] != "ok" and a["a"] not in ("RaiseIn",):
                 break
         # leave no context open
